@@ -810,6 +810,20 @@ func checkC17(p *Prog, r *Report) {
 									wit = "loop bound " + clip(wit, 80)
 								}
 							}
+							if !ok2 && it.Op == "call" && len(it.Args) == 1 && it.Args[0].Eq(xt) {
+								// a byte-class scanner of the module (bytescan.go): the result is -1 or the index of a byte of its argument
+								if g := staticCalleeOfTerm(p, it); g != nil {
+									if _, isScan := byteScanAllowed(g); isScan {
+										isConst := func(t *Term, v string) bool { return t.Op == "const" && t.Name == v }
+										wit, ok2 = fa.DominatingFact(in, false, func(t *Term) bool {
+											return t.Op == "lt" && t.Args[0].Eq(it) && isConst(t.Args[1], "0")
+										})
+										if ok2 {
+											wit = "index returned by the scanner " + FuncName(g) + " and tested >= 0: " + clip(wit, 60)
+										}
+									}
+								}
+							}
 							if !ok2 && it.Op == "call" && (strings.HasPrefix(it.Name, "slices.IndexFunc[") || strings.HasPrefix(it.Name, "slices.Index[")) && len(it.Args) == 2 && it.Args[0].Eq(xt) {
 								// library contract: the result is -1 or a valid index of the first argument
 								isConst := func(t *Term, v string) bool { return t.Op == "const" && t.Name == v }
